@@ -1,6 +1,8 @@
 package engine
 
 import (
+	"fmt"
+
 	"verif/mc/spec"
 )
 
@@ -16,10 +18,7 @@ func Iterate[T comparable, P Object[T]](im *Impl[T, P], dims []Dim, bg spec.Assi
 	for _, d := range dims {
 		n *= len(d.Vals)
 	}
-	chunk := 1 << 13
-	if n < chunk*workers && workers > 1 {
-		chunk = (n + workers - 1) / workers
-	}
+	chunk := iterChunk(n, workers)
 	nch := (n + chunk - 1) / chunk
 	Parallel(nch, workers, func(c int) {
 		lo, hi := c*chunk, (c+1)*chunk
@@ -74,4 +73,138 @@ func Iterate[T comparable, P Object[T]](im *Impl[T, P], dims []Dim, bg spec.Assi
 			}
 		}
 	})
+}
+
+func iterChunk(n, workers int) int {
+	chunk := 1 << 13
+	if n < chunk*workers && workers > 1 {
+		chunk = (n + workers - 1) / workers
+	}
+	if chunk < 1 {
+		chunk = 1
+	}
+	return chunk
+}
+
+// PathOps returns the exact Set sequence by which Iterate(im, dims, bg, workers, ...) reaches state idx:
+// the canonical build of the chunk's first state followed by the odometer steps. It makes a violation
+// found on an Iterate path replayable even when it depends on the history of Set calls.
+func PathOps[T comparable, P Object[T]](im *Impl[T, P], dims []Dim, bg spec.Assignment, workers int, idx int) [][]string {
+	ver := im.Ver
+	n := 1
+	for _, d := range dims {
+		n *= len(d.Vals)
+	}
+	chunk := iterChunk(n, workers)
+	lo := (idx / chunk) * chunk
+	dg := make([]int, len(dims))
+	x := lo
+	a := bg.Clone()
+	for j, d := range dims {
+		dg[j] = x % len(d.Vals)
+		x /= len(d.Vals)
+		a[d.M] = d.Vals[dg[j]]
+	}
+	var ops [][]string
+	for mi, m := range ver.Metrics {
+		ops = append(ops, []string{"Set", m.Abv, m.Values[a[mi]]})
+	}
+	for i := lo; i < idx; i++ {
+		for j := 0; j < len(dims); j++ {
+			dg[j]++
+			if dg[j] == len(dims[j].Vals) {
+				dg[j] = 0
+			}
+			d := dims[j]
+			m := ver.Metrics[d.M]
+			ops = append(ops, []string{"Set", m.Abv, m.Values[d.Vals[dg[j]]]})
+			if dg[j] != 0 {
+				break
+			}
+		}
+	}
+	return ops
+}
+
+// ObjFromOps executes a Set sequence on the zero value.
+func ObjFromOps[T comparable, P Object[T]](ops [][]string) T {
+	var o T
+	for _, op := range ops {
+		P(&o).Set(op[1], op[2])
+	}
+	return o
+}
+
+// minimiseOps shortens a Set path that still makes pred fail: first tries the canonical build alone
+// (history independent faults), then drops leading odometer steps greedily.
+func minimiseOps[T comparable, P Object[T]](ops [][]string, nBuild int, pred func(o *T) bool) [][]string {
+	// last value of each metric = canonical form
+	last := map[string]string{}
+	var order []string
+	for _, op := range ops {
+		if _, ok := last[op[1]]; !ok {
+			order = append(order, op[1])
+		}
+		last[op[1]] = op[2]
+	}
+	var canon [][]string
+	for _, abv := range order {
+		canon = append(canon, []string{"Set", abv, last[abv]})
+	}
+	o := ObjFromOps[T, P](canon)
+	if pred(&o) {
+		return canon
+	}
+	// keep the build, bisect the number of odometer steps dropped from the front is unsound in general;
+	// instead keep only the last k steps for growing k
+	steps := ops[nBuild:]
+	for k := 1; k < len(steps); k *= 2 {
+		cand := append(append([][]string(nil), ops[:nBuild]...), steps[len(steps)-k:]...)
+		o := ObjFromOps[T, P](cand)
+		if pred(&o) {
+			return cand
+		}
+	}
+	return ops
+}
+
+// iterViolation records a violation found by an Iterate sweep at state idx. The confirmation re-executes
+// the exact Set path that led there (so history-dependent faults reproduce), and the stored case holds a
+// minimised Set sequence.
+func iterViolation[T comparable, P Object[T]](r *Report, im *Impl[T, P], dims []Dim, bg spec.Assignment, workers, idx int,
+	a spec.Assignment, kind, key, exp, obs string, extra map[string]any, pred func(a spec.Assignment, o *T) string) {
+	ver := im.Ver
+	ac := a.Clone()
+	args := map[string]any{"version": ver.Name, "vector": ver.Full(a)}
+	for k, v := range extra {
+		args[k] = v
+	}
+	c := Case{Kind: kind, Key: key, Expected: exp, Observed: obs, Args: args}
+	r.Violation(c, func() bool {
+		ops := PathOps(im, dims, bg, workers, idx)
+		o := ObjFromOps[T, P](ops)
+		if pred(ac, &o) == "" {
+			return false
+		}
+		if _, done := args["ops"]; !done {
+			min := minimiseOps[T, P](ops, len(ver.Metrics), func(o *T) bool { return pred(ac, o) != "" })
+			args["ops"] = min
+			args["ops_note"] = fmt.Sprintf("Set sequence from the zero value (%d calls, minimised from the %d-call sweep path)", len(min), len(ops))
+		}
+		return true
+	})
+}
+
+// objForReplay rebuilds the object of a stored case: by its Set sequence when present, else canonically from the vector.
+func objForReplay[T comparable, P Object[T]](im *Impl[T, P], c *Case) (spec.Assignment, T, error) {
+	var zero T
+	a, ok := im.Ver.Parse(argStr(c, "vector"))
+	if !ok {
+		return nil, zero, fmt.Errorf("replay vector not in the language")
+	}
+	if ops := argOps(c); len(ops) > 0 {
+		return a, ObjFromOps[T, P](ops), nil
+	}
+	o, err := NewOS(im, NewReport("x", "quick", 0)).Build(a)
+	return a, o, err
 }
